@@ -43,12 +43,14 @@ func init() {
 					{name: "seq", n: 100000, perChild: 6250, timeout: 30 * time.Minute},
 					{name: "lin", n: 80000, perChild: 5000, timeout: 30 * time.Minute, env: []string{"VERIF_HOOK=chaos", "VERIF_HOOK_PROB=40", "VERIF_HOOK_MAXUS=20"}},
 					{name: "stress", n: 480, perChild: 30, race: true, timeout: 30 * time.Minute, env: []string{"VERIF_HOOK=chaos", "VERIF_HOOK_PROB=10", "VERIF_HOOK_MAXUS=5"}},
+					{name: "never-empty", n: 320, perChild: 20, timeout: 30 * time.Minute},
 				}
 			}
 			return []modeSpec{
 				{name: "seq", n: 4000, perChild: 250, timeout: 5 * time.Minute},
 				{name: "lin", n: 2400, perChild: 150, timeout: 5 * time.Minute, env: []string{"VERIF_HOOK=chaos", "VERIF_HOOK_PROB=40", "VERIF_HOOK_MAXUS=20"}},
 				{name: "stress", n: 48, perChild: 3, race: true, timeout: 10 * time.Minute, env: []string{"VERIF_HOOK=chaos", "VERIF_HOOK_PROB=10", "VERIF_HOOK_MAXUS=5"}},
+				{name: "never-empty", n: 32, perChild: 2, timeout: 10 * time.Minute},
 			}
 		},
 		run: func(c *caseCtx) caseResult {
@@ -57,6 +59,8 @@ func init() {
 				return c14Seq(c)
 			case "lin":
 				return c14Lin(c)
+			case "never-empty":
+				return c14NeverEmpty(c)
 			default:
 				return c14Stress(c)
 			}
@@ -638,3 +642,65 @@ func c14Stress(c *caseCtx) (res caseResult) {
 }
 
 var _ = rand.Int
+
+// c14NeverEmpty: M elements are queued, then K consumers make exactly M PopN(1)/Pop calls between
+// them while a producer keeps pushing (so the backing array doubles under their feet). Whenever one
+// of those calls runs, fewer than M elements can have been taken, so the queue is not empty: every
+// single call must report true and hand over one element. "False exactly when the queue is empty"
+// thereby becomes checkable under contention without knowing the interleaving.
+func c14NeverEmpty(c *caseCtx) (res caseResult) {
+	r := c.rng
+	capa := pick(r, int64(1), 8, 1024)
+	M := pick(r, 20000, 100000, 400000)
+	K := 2 + r.Intn(6)
+	rb := ringbuffer.New[int](capa)
+	for i := 0; i < M; i++ {
+		rb.Push(i)
+	}
+	// the array is now a power-of-two multiple of capa just above M; the producer's pushes make it double
+	// (a copy of the whole array under the buffer's lock) while the consumers are at work
+	extra := M + M/2
+	var falses, wrong int64
+	var wg sync.WaitGroup
+	wg.Add(1)
+	go func() {
+		defer wg.Done()
+		for i := 0; i < extra; i++ {
+			rb.Push(M + i)
+		}
+	}()
+	per := M / K
+	for k := 0; k < K; k++ {
+		usePopN := (k+c.n)%2 == 0
+		wg.Add(1)
+		go func() {
+			defer wg.Done()
+			for i := 0; i < per; i++ {
+				if usePopN {
+					vs, ok := rb.PopN(1)
+					if !ok {
+						atomic.AddInt64(&falses, 1)
+					} else if len(vs) != 1 {
+						atomic.AddInt64(&wrong, 1)
+					}
+				} else if _, ok := rb.Pop(); !ok {
+					atomic.AddInt64(&falses, 1)
+				}
+			}
+		}()
+	}
+	wg.Wait()
+	res.Desc = fmt.Sprintf("never-empty cap=%d queued=%d consumers=%d (each %d single pops) + %d concurrent pushes", capa, M, K, per, extra)
+	if f := atomic.LoadInt64(&falses); f > 0 {
+		res.violate("%d pop calls reported false although the queue cannot have been empty: %d elements were queued before the first of the %d calls began and each call takes at most one (%s)", f, M, per*K, res.Desc)
+	}
+	if w := atomic.LoadInt64(&wrong); w > 0 {
+		res.violate("%d PopN(1) calls returned a batch that is not one element long", w)
+	}
+	if want := int64(M + extra - per*K); rb.Len() != want && res.Verdict != vViolated {
+		res.violate("Len() = %d after %d pushes and %d successful single pops, expected %d", rb.Len(), M+extra, per*K, want)
+	}
+	res.count("never_empty_pops", int64(per*K))
+	res.Sig = sigHash("never-empty", capa, M, K)
+	return res
+}
